@@ -129,25 +129,23 @@ def _judge(W, info, meta, harness, specs, r):
     if r.status == "gcc_reject":
         out.append(("gcc_reject", None, None, r.detail))
         return out
-    for k, san, tail in r.san:
+    for k, san, tail in r.san[:1]:
         out.append(("sanitizer", {"san": _san_class(san)}, k, san + "\n" + tail))
-    harness_bad = None
+    lanes = set()
     for k in r.bad:
         d = r.diffs[k]
         touched = {x.get("arg") for x in d}
         if touched & hc_names:
             kinds = {w["kind"] for w in meta["wargs"] if w["role"] == "hc" and w["name"] in touched}
             if not (kinds <= pair):
-                harness_bad = (k, sorted(kinds - pair))
-                continue
-        out.append(("mismatch", None, k, W.describe_diffs(info, meta, specs[k], d)))
-    # one mismatch witness per wrapper is enough: the one with the fewest differing elements
-    mm = [o for o in out if o[0] == "mismatch"]
-    if len(mm) > 1:
-        best = min(mm, key=lambda o: (len(r.diffs[o[2]]), o[2]))
-        out = [o for o in out if o[0] != "mismatch"] + [best]
-    if harness_bad is not None and not any(o[0] == "mismatch" for o in out):
-        out.append(("harness", None, harness_bad[0], f"round trip of {harness_bad[1]} not intact"))
+                # the load/store round trip is not intact in this binary: nothing is attributed to the instruction
+                out.append(("harness", None, k, f"round trip of {sorted(kinds - pair)} not intact"))
+                return [o for o in out if o[0] != "mismatch"]
+        lanes |= set(W.where_hint(info, meta, specs[k], d))
+    if r.bad:
+        # one witness per wrapper: the operand set with the fewest differing elements
+        k = min(r.bad, key=lambda q: (len(r.diffs[q]), q))
+        out.append(("mismatch", {"lanes": "+".join(sorted(lanes))}, k, W.describe_diffs(info, meta, specs[k], r.diffs[k])))
     return out
 
 
@@ -262,12 +260,15 @@ def _report(ctx, W, harness, info, pidx, pl, src, meta, ins, r):
             "call": meta["call"],
             "placement": pl,
             "wargs": _wargs_json(meta),
+            "windows": meta.get("windows"),
+            "ctl_mode": meta.get("ctl_mode"),
+            "ctl_lit": meta.get("ctl_lit"),
             "kind": kind,
             "inputs": [specs[k].to_json()] if k is not None else [s.to_json() for s in specs[:2]],
             "detail": (detail or "")[:3000],
         }
         if kind == "mismatch":
-            case["where"] = W.where_hint(info, meta, specs[k], r.diffs[k])
+            case["failing_operand_sets"] = len(r.bad)
             ctx.stat("mismatches")
         ctx.violation(sig, case)
     ctx.sample(
@@ -426,18 +427,20 @@ def replay(case):
         elif r.status == "gcc_reject":
             detail += (r.detail or "")[-1500:]
         elif r.status == "mismatch":
-            k = r.bad[0]
-            meta = {"call": case.get("call"), "wargs": case.get("wargs", [])}
-            if info is not None:
-                detail += W.describe_diffs(info, meta, specs[k], r.diffs[k])
-            else:
-                detail += json.dumps(r.diffs[k][:12], default=str)
+            pass
         else:
             detail += f"status {r.status}: {r.detail or ''}"[:600]
         # a sanitizer case that also mismatches (or the reverse) still reproduces its own kind
-        if want == "mismatch" and r.bad:
+        if r.bad and (want == "mismatch" or r.status == "mismatch"):
             kind = "mismatch"
-            extra = None
+            k = r.bad[0]
+            meta = {"call": case.get("call"), "wargs": case.get("wargs", []), "windows": case.get("windows"), "ctl_mode": case.get("ctl_mode"), "ctl_lit": case.get("ctl_lit")}
+            if info is not None:
+                extra = {"lanes": "+".join(W.where_hint(info, meta, specs[k], r.diffs[k]))}
+                detail += W.describe_diffs(info, meta, specs[k], r.diffs[k])
+            else:
+                extra = None
+                detail += json.dumps(r.diffs[k][:12], default=str)
         reproduced = kind == want and kind in ("mismatch", "sanitizer", "gcc_reject")
         return {"reproduced": bool(reproduced), "sig": _sig(name, feature, kind, extra), "detail": detail}
     finally:
